@@ -88,6 +88,10 @@ def o_typestate(P, E, kinds=None):
                         if unsub:
                             witnesses.setdefault(("callback after unsubscribe", "%s delivered after unsubscribe" % slot), h2)
                     nterm = term or any(s in ("error", "complete") for s in inv)
+                    # (vi) a terminal releases all three callbacks (nothing keeps owning them)
+                    if any(s in ("error", "complete") for s in inv) and any(st2[:3]):
+                        left = [SLOT_NAME[USER_SLOTS[i][:1]] for i in range(3) if st2[i]]
+                        witnesses.setdefault(("callback kept after terminal", "%s slot still set after %s" % ("/".join(left), ev)), h2)
                     if sum(1 for s in inv if s in ("error", "complete")) > 1:
                         witnesses.setdefault(("two terminals in one call", ev), h2)
                     # (v) never refilled
